@@ -42,7 +42,7 @@ def check (j : Json) : Except String (Option String) := do
         pure (allSome [cmpField "genesis.whoIsList" m.whoIsList g.whoIsList, cmpField "genesis.namesList" m.namesList g.namesList,
           cmpField "genesis.bidsList" m.bidsList g.bidsList, cmpField "genesis.forSaleList" m.forSaleList g.forSaleList,
           cmpField "genesis.initList" m.initList g.initList, cmpField "genesis.primaryNameList" m.primaryNameList g.primaryNameList,
-          cmpField "genesis.validate" (Genesis.Rns.validate g) true,
+          cmpField "genesis.validate" (Genesis.Rns.validate g) ((gj.getObjValAs? Bool "validateOk").toOption.getD true),
           (diff imported post).map (fun d => "genesis.import " ++ d)])
       | .error _ => pure none
     return allSome [diff pre post, gd]
